@@ -170,6 +170,12 @@ class DictDecoder:
         xsi_type = data["type"]
         params = data["value"]
 
+        if not isinstance(params, dict):
+            raise ParserError(
+                f"Expected an object for the derived value of {clazz.__qualname__}, "
+                f"got {type(params).__name__}"
+            )
+
         generic = self.context.class_type.derived_element
 
         if clazz is generic:
